@@ -354,7 +354,7 @@ def run_family(mir, fam, ops, assume, obligations_fn, seed, timeout_s, sym_obs_f
     except (Unsupported, PathDead) as e:
         return fam_result(fam, 'R', 'undecided', detail='R cannot encode: %r' % (e,), bounds=bounds, required=required,
                           functions=sorted(ex.called), lib_models=sorted(ex.lib_called))
-    wit = None
+    wit = lambda: z3.BoolVal(True)          # default: the assumptions must at least be satisfiable
     if witness == 'perturb' and obligations_fn is not None:
         def wit():
             exp = obligations_fn(ops, [None if o is None else [x + 1 for x in o] for o in outs])
